@@ -12,9 +12,12 @@ from . import core
 
 
 def _findings(mod, src, prop):
-    ctx = core.Ctx(prop, "quick", 0)
+    ctx = core.Ctx(prop, "quick", 0, lenient=src.canon and getattr(mod, "LENIENT", True))
+    ctx.strict_rules = set(getattr(mod, "STRICT", ()))
     try:
         mod.check(ctx, src)
+    except core.Unresolved as e:
+        ctx.unres("NEED", prop, str(e))
     except core.AnalysisError as e:
         return None, f"analysis-error: {e}"
     return {f.ident() for f in ctx.findings}, None
